@@ -16,6 +16,10 @@ d, info = facts.acquire()
 paths = []
 closures = []
 meta = {}
+allraws = {}
+for c in facts.CRATES:
+    for b in json.load(open(os.path.join(d, c + ".json")))["bodies"]:
+        allraws[b["path"]] = b
 for c in facts.CRATES:
     raw = json.load(open(os.path.join(d, c + ".json")))
     for b in raw["bodies"]:
@@ -23,7 +27,7 @@ for c in facts.CRATES:
             # closures of the reference tree, identified by what they are (closure numbers shift when one is added before them):
             # a closure no listed one accounts for is new code (engine/inline.desugar_combinators)
             from engine import inline as _inline
-            closures.append([b["path"].rsplit("::{closure#", 1)[0], _inline.closure_signature(b)])
+            closures.append([b["path"].rsplit("::{closure#", 1)[0], _inline.closure_signature(b, allraws)])
         if b["kind"] in ("Fn", "AssocFn"):
             paths.append(b["path"])
             # what identifies the function when only its name or module changes: crate, signature, impl type, trait
